@@ -5,8 +5,8 @@ call and of every nested public call (ApiBoundary), every precision-setter event
 Crash points: user callbacks raising at their k-th call; failpoints (sys.monitoring PY_START on libmp primitives)
 raising an InjectedFault(BaseException) / ZeroDivisionError / ValueError at the k-th primitive entry; natural
 failures (poles, domain errors, NoConvergence).  Also: workprec/workdps/extraprec/extradps as with-blocks and
-decorators (nesting, re-use of one object, exceptions), autoprec/memoize/maxcalls, the dps<->prec setter laws,
-iv / fp / a clone of mp.
+decorators (nesting, re-use of one object, exceptions), autoprec/memoize/maxcalls, wrapper / decorator / callable
+objects created under precision A and called under precision B != A, the dps<->prec setter laws, iv / fp / a clone of mp.
 Oracle: state equality (exit vs entry); setter laws against the documented formulas evaluated in exact rational
 arithmetic."""
 import time, random
@@ -31,12 +31,14 @@ ASSUMPTIONS = ['sys.monitoring PY_START callbacks may raise into the monitored f
                '(minus prec_to_dps/dps_to_prec) plus hypsum/hypercomb/quadrature summation; faults between two such entries are not injected',
                'the number of crash points N of a call is measured on an undisturbed run after one warm-up run (caches filled)',
                'leak attribution (mechanism key) uses the caller frame of the precision setter; the verdict itself only compares states']
-SHARD_TIMEOUT = {'quick': 1200, 'thorough': 3600}
+SHARD_TIMEOUT = {'quick': 1500, 'thorough': 7200}
 LEVEL_TEXT = ('fault enumeration: for every listed entry point, argument set and start precision the crash points k = 1..N are '
               'enumerated completely when N <= 400 (thorough: three fault kinds at every k; quick: interrupt at every k and one '
               'Exception-class fault alternating by k), a stratified sample of k (80 quick / 200 thorough strata + both ends) above 400; callbacks raise at their k-th call '
               'for k = 1..24, 40, 80, 160 (thorough: 1..64 and a stratified sample); cells that exceed the per-cell time cap '
-              'are counted as cut in monitor_events; state at exit is compared with state at entry on every run')
+              'are counted as cut in monitor_events; every wrapper/decorator/callable-object factory is created under precision A and '
+              'called several times under B != A (directly, alternating B/C, inside a workprec block), with and without raising '
+              'callbacks; state at exit is compared with state at entry on every run')
 LEVEL_NOTE = ('not a proof: faults are injected only at entries of the listed primitives, argument values are samples, '
               'asynchronous interrupts between two bytecodes are not modelled; coverage.exhaustive is not claimed')
 TECHNIQUE = 'runtime monitoring with crash-point enumeration (failpoints via sys.monitoring, raising callbacks), state-equality oracle'
@@ -51,6 +53,7 @@ CAPS = {'quick': {'case': 2.0, 'cell': 2.5, 'complete': 400, 'sample': 80, 'cbma
 
 FP_SHARDS = {'quick': 16, 'thorough': 40}
 CB_SHARDS = {'quick': 5, 'thorough': 6}
+CLONE_SHARDS = {'quick': 1, 'thorough': 5}
 
 
 def shards(tier, seed):
@@ -60,8 +63,14 @@ def shards(tier, seed):
     for i in range(CB_SHARDS[tier]):
         out.append({'kind': 'cb', 'part': i, 'of': CB_SHARDS[tier]})
     out.append({'kind': 'laws+managers'})
-    out.append({'kind': 'natural+objects'})
-    out.append({'kind': 'clone'})
+    out.append({'kind': 'factories'})
+    if tier == 'quick':
+        out.append({'kind': 'natural+objects'})
+    else:
+        out.append({'kind': 'natural'})
+        out.append({'kind': 'objects'})
+    for i in range(CLONE_SHARDS[tier]):
+        out.append({'kind': 'clone', 'part': i, 'of': CLONE_SHARDS[tier]})
     out.append({'kind': 'iv+fp'})
     return out
 
@@ -481,6 +490,91 @@ def run_cb(shard, rec, env):
 
 
 # ---------------------------------------------------------------------------------------
+# factories: wrapper / decorator / callable objects CREATED under precision A and CALLED under precision B != A
+# ---------------------------------------------------------------------------------------
+FACTORY_PAIRS = [(('prec', 53), ('prec', 101), ('prec', 54)), (('prec', 101), ('prec', 53), ('dps', 30)),
+                 (('prec', 101), ('prec', 54), ('prec', 3)), (('dps', 30), ('prec', 101), ('prec', 53)),
+                 (('prec', 3), ('prec', 101), ('dps', 7)), (('prec', 54), ('dps', 7), ('prec', 1000)),
+                 (('prec', 1000), ('prec', 53), ('prec', 101)), (('dps', 50), ('dps', 15), ('prec', 101))]
+FACTORY_MODES = ('direct', 'alternate', 'inblock')
+
+
+def factory_run(env, cx, label, A, B, C, mode, k=None, excname=None):
+    """create under A, call (several times in a row) under B (mode alternate: B, C, B, ...; mode inblock: inside a
+    with workprec(B) block entered after the creation); every call must leave the state it found"""
+    rec, caps = env.rec, env.caps
+    ctx, w = env.ctx[cx], env.watch[cx]
+    name, make, calls = T.FACTORIES[label]
+    others = env.others(cx)
+    cb = K.CB(ctx, k, CB_EXC[excname]() if excname else None)
+    case = {'section': 'factory', 'ctx': cx, 'entry': label, 'A': list(A), 'B': list(B), 'C': list(C), 'mode': mode,
+            'k': k or 0, 'exc': excname or 'none'}
+    ident = (cx, 'factory', label, A, B, C, mode, k, excname)
+    box = []
+    res = K.run_case(ctx, w, lambda: box.append(make(ctx, cb)), A, caps['case'], others=others)
+    judge(rec, res, dict(case, step='create'), ident + ('create',), 'callback', cb=cb, entry='factory:' + label + '/create')
+    if not box:
+        return cb.n
+    obj = box[0]
+    K.set_precision(ctx, A)
+    mgr = None
+    if mode == 'inblock':
+        K.set_precision(ctx, B)
+        nB = ctx.prec
+        K.set_precision(ctx, A)
+        sA = K.ctx_state(ctx)
+        mgr = ctx.workprec(nB)
+        mgr.__enter__()
+    for i, call in enumerate(calls):
+        if mode == 'inblock':
+            ps = ('prec', nB)
+        elif mode == 'alternate':
+            ps = (B, C)[i % 2]
+        else:
+            ps = B
+        res = K.run_case(ctx, w, lambda: call(ctx, obj), ps, caps['case'], others=others)
+        judge(rec, res, dict(case, step=i, call_precset=list(ps)), ident + (i,), 'callback', cb=cb,
+              entry='factory:%s/call' % label, nontrivial_force=True, keytag='created-under-A-called-under-B')
+        rec.cls('factory/' + mode)
+        if res['timeout'] or (cb.raised and res['outcome'] == 'raise'):
+            break
+    if mgr is not None:
+        mgr.__exit__(None, None, None)
+        if K.ctx_state(ctx) != sA:
+            rec.violation('C11/leak/factory-inblock-exit/' + label.split('/')[0], 'state after leaving the workprec block around the calls '
+                          'differs from the state before it', case, K.describe_state(K.ctx_state(ctx)), K.describe_state(sA))
+            K.set_precision(ctx, A)
+    return cb.n
+
+
+def run_factories(rec, env, tier, seed, only=None):
+    pairs = FACTORY_PAIRS if tier == 'thorough' else FACTORY_PAIRS[:5]
+    kmax = 40 if tier == 'thorough' else 10
+    for li, label in enumerate(T.FACTORIES):
+        name = T.FACTORIES[label][0]
+        for cx in ('mp', 'clone'):
+            if cx == 'clone' and tier == 'quick' and li % 3:
+                continue
+            for pi, (A, B, C) in enumerate(pairs):
+                for mi, mode in enumerate(FACTORY_MODES):
+                    if tier == 'quick' and (pi + mi + li + seed) % 3 == 2 and pi > 1:
+                        continue
+                    t0 = time.process_time()
+                    M = factory_run(env, cx, label, A, B, C, mode)
+                    ks = [k for k in list(range(1, kmax + 1)) + [20, 40, 80, 160] if k <= M]
+                    for k in sorted(set(ks)):
+                        if time.process_time() - t0 > (4.0 if tier == 'quick' else 20.0):
+                            rec.event('factory cells cut by the time cap')
+                            break
+                        factory_run(env, cx, label, A, B, C, mode, k, ('UserError', 'ZeroDivisionError', 'UserInterrupt')[(k + pi) % 3])
+                        if tier == 'thorough':
+                            factory_run(env, cx, label, A, B, C, mode, k, 'ValueError')
+        rec.cls('entry/factory:' + label, 1)
+    rec.event('factory objects called under a precision different from their creation precision',
+              sum(v for k, v in rec.classes.items() if k.startswith('factory/')))
+
+
+# ---------------------------------------------------------------------------------------
 # setter laws
 # ---------------------------------------------------------------------------------------
 def _atanh_inv(n, bits):
@@ -765,7 +859,7 @@ FP_CALLS = {
 CLONE_EVERY = {'quick': 12, 'thorough': 3}
 
 
-def run_clone(rec, env, tier, seed):
+def run_clone(rec, env, tier, seed, part=0, of=1):
     # --- clone of mp: a sample of the failpoint cells and of the callback cells, also watching mp itself
     cells = [c for c in fp_worklist('quick')]
     names = ['lambertw', 'zeta', 'gamma', 'besselj', 'hyp2f1', 'erf', 'exp', 'ellipk', 'polylog', 'agm']
@@ -774,12 +868,14 @@ def run_clone(rec, env, tier, seed):
             continue
         if not (a in names or idx % CLONE_EVERY[tier] == 0):
             continue
+        if (idx // 2) % of != part:
+            continue
         r = G.rng(PROP, seed, 'clone-ks:%s:%s' % (a, b))
         specs = cat_specs(a, b, seed)
         ps = [('prec', 101), ROT[(idx + seed + 3) % len(ROT)]] if tier == 'quick' else precsets_for(tier, idx, seed)[:4]
         fp_cell(env, 'clone', '%s/%s' % (a, b), mk_cat_call(a, specs), {'section': 'failpoint', 'name': a, 'specs': specs}, ps, r)
     for idx, label in enumerate(T.CALLBACKS):
-        if tier == 'quick' and idx % 3:
+        if (tier == 'quick' and idx % 3) or idx % of != part:
             continue
         r = G.rng(PROP, seed, 'clone-cb:' + label)
         cb_cell(env, 'clone', label, [('prec', 101), ('dps', 30)] if tier == 'quick' else cb_precsets(tier, idx, seed)[:4], r)
@@ -809,7 +905,9 @@ def run_shard(shard, rec):
     tier = shard['tier']
     kind = shard['kind']
     want = {'fp': ('mp', 'clone'), 'cb': ('mp', 'clone'), 'laws+managers': ('mp', 'clone', 'iv', 'fp'),
-            'natural+objects': ('mp', 'clone'), 'clone': ('mp', 'clone'), 'iv+fp': ('mp', 'iv', 'fp')}[kind]
+            'natural+objects': ('mp', 'clone'), 'natural': ('mp', 'clone'), 'objects': ('mp', 'clone'),
+            'factories': ('mp', 'clone'),
+            'clone': ('mp', 'clone'), 'iv+fp': ('mp', 'iv', 'fp')}[kind]
     env = Env(rec, tier, want)
     try:
         if kind == 'fp':
@@ -822,8 +920,14 @@ def run_shard(shard, rec):
         elif kind == 'natural+objects':
             run_natural(rec, env, tier, shard['seed'])
             run_objects(rec, env, tier, shard['seed'])
+        elif kind == 'factories':
+            run_factories(rec, env, tier, shard['seed'])
+        elif kind == 'natural':
+            run_natural(rec, env, tier, shard['seed'])
+        elif kind == 'objects':
+            run_objects(rec, env, tier, shard['seed'])
         elif kind == 'clone':
-            run_clone(rec, env, tier, shard['seed'])
+            run_clone(rec, env, tier, shard['seed'], shard.get('part', 0), shard.get('of', 1))
         elif kind == 'iv+fp':
             run_ivfp(rec, env, tier, shard['seed'])
     finally:
@@ -835,15 +939,17 @@ def required(agg, tier):
     miss = []
     for name in ('failpoints fired', 'callbacks raised', 'wrapped public calls seen (ApiBoundary)',
                  'precision-setter events seen (PrecTrace)', 'natural exceptions observed', 'manager plans executed',
-                 'setter-law cases', 'cells enumerated completely (N <= 400)'):
+                 'setter-law cases', 'cells enumerated completely (N <= 400)',
+                 'factory objects called under a precision different from their creation precision'):
         if not ev.get(name):
             miss.append('monitor event never observed: ' + name)
     for c in ('failpoint/interrupt/exposed', 'failpoint/internal-exception/exposed', 'callback/callback/exposed',
               'manager/reuse-nested', 'manager/reuse-nested+exception', 'generator/suspended',
+              'factory/direct', 'factory/alternate', 'factory/inblock',
               'law/dps->prec/mp', 'law/prec->dps/mp', 'law/dps->prec/iv'):
         if not cl.get(c):
             miss.append('class never observed: ' + c)
-    nent = sum(1 for k, v in cl.items() if k.startswith('entry/') and not k.startswith('entry/cb:') and v > 0)
+    nent = sum(1 for k, v in cl.items() if k.startswith('entry/') and not k.startswith(('entry/cb:', 'entry/factory:')) and v > 0)
     ncb = sum(1 for k, v in cl.items() if k.startswith('entry/cb:') and v > 0)
     if nent < 200:
         miss.append('only %d entry points had crash points enumerated by failpoints' % nent)
@@ -899,6 +1005,9 @@ def replay(case, rec):
             ks = [c['k']] if c.get('k') else []
             cb_cell(env, c.get('ctx', 'mp'), c['entry'], [precset], r, ks_only=ks,
                     excs_only=[c['exc']] if c.get('exc') not in (None, 'none') else ['UserError'])
+        elif sec == 'factory':
+            factory_run(env, c.get('ctx', 'mp'), c['entry'], tuple(c['A']), tuple(c['B']), tuple(c['C']), c['mode'],
+                        c.get('k') or None, c['exc'] if c.get('exc') not in (None, 'none') else None)
         elif sec == 'natural':
             ent = T.NATURAL[c['index']]
             ctx = env.ctx[c.get('ctx', 'mp')]
